@@ -158,17 +158,17 @@ def facts_dir(config="default", repo=None):
             (p for p in glob.glob(os.path.join(FACTS, "*")) if os.path.isdir(p)),
             key=os.path.getmtime,
         )
-        for old in dirs[:-4]:
+        for old in dirs[:-100]:
             if os.path.basename(old) != h:
                 shutil.rmtree(old, ignore_errors=True)
     return d, False
 
 
 def load(crate="numbat-lib", config="default", repo=None):
-    key = (crate, config, repo or REPO)
+    d, hit = facts_dir(config, repo)
+    key = (crate, config, d)  # the directory name carries the content hash of the tree
     if key in _loaded:
         return _loaded[key]
-    d, hit = facts_dir(config, repo)
     path = os.path.join(d, "%s-%s.json" % (crate, config))
     with open(path) as f:
         doc = json.loads(normalize_paths(f.read()))
